@@ -14,6 +14,7 @@ import AnthemModel.Model.External
 import AnthemModel.Model.Files
 import AnthemModel.Model.Status
 import AnthemModel.Model.Print
+import AnthemModel.Model.AspParse
 import AnthemModel.Model.TffParse
 import Driver.Search
 open Anthem
@@ -218,6 +219,10 @@ def respond (req : Sexp) : Sexp :=
     | .ok st => .list [.atom "ok", .atom ((reprStr st).replace "Anthem.Status." "")]
     | .missing => .atom "missing"
     | .unknown w => .list [.atom "unknown", .str w]
+  | .list [.atom "asp_parse", .str text] =>
+    match Asp.parseProgram text with
+    | some p => .list [.atom "ok", Asp.programToSexp p]
+    | none => .list [.atom "error"]
   | .list [.atom "print_program", p] =>
     match Asp.programOfSexp p with
     | some p => .str (Asp.printProgram p)
